@@ -284,7 +284,7 @@ def link_sly_confinement(ctx):
                 tgt = ast.unparse(n.targets[0] if isinstance(n, ast.Assign) else n.target)
                 if isinstance(v, (ast.Dict, ast.List, ast.Set, ast.ListComp, ast.DictComp, ast.SetComp)):
                     bad.append("line %d: module-level mutable container `%s`" % (n.lineno, tgt))
-                elif isinstance(v, ast.Call) and ast.unparse(v.func) not in ("TypeVar", "typing.TypeVar", "frozenset", "tuple", "re.compile"):
+                elif isinstance(v, ast.Call) and ast.unparse(v.func) not in IMMUTABLE_MODULE_LEVEL_CTORS:
                     bad.append("line %d: module-level object `%s = %s(...)` shared by all callers" % (n.lineno, tgt, ast.unparse(v.func)))
         # a function that rebinds a module-level name (`global x`) keeps state between calls just as well
         for n in ast.walk(tree):
@@ -314,6 +314,14 @@ def link_sly_confinement(ctx):
                        status=DISCHARGED if not bad else REFUTED, backend="effect-scan", detail="; ".join(bad), props=("C17", "C01", "C15", "C07", "C12", "C11"), model={"calls": bad} if bad else None,
                        replay=lambda ob: _thread_replay()))
     return out
+
+
+# constructors whose result cannot be modified by anyone who holds it (a read-only mapping view of a dict literal nobody else can
+# reach, immutable containers, compiled regexes, type-level objects)
+IMMUTABLE_MODULE_LEVEL_CTORS = ("TypeVar", "typing.TypeVar", "frozenset", "tuple", "re.compile", "MappingProxyType", "types.MappingProxyType", "namedtuple",
+                                "collections.namedtuple", "NamedTuple", "typing.NamedTuple", "NewType", "typing.NewType", "Fraction", "fractions.Fraction", "Decimal",
+                                "decimal.Decimal", "str", "int", "float", "bytes", "range", "object", "struct.Struct", "operator.itemgetter", "operator.attrgetter",
+                                "confloat", "conint", "constr", "conlist", "Field", "pydantic.Field", "logging.getLogger", "getLogger")
 
 
 PROCESS_GLOBAL_CALLS = {
